@@ -40,6 +40,7 @@ HDR = 'From ScaredV Require Import Spec.Fips197 Model.Aes.'
 
 KLENS = (16, 24, 32)
 DTYPES = ('uint8', 'int16', 'int64')
+MORE_DTYPES = DTYPES + ('uint16', 'int32', 'uint32', 'uint64')
 
 
 def _hex(s):
@@ -89,8 +90,15 @@ def _opt_nat(v):
     return 'None' if v is None else f'(Some {int(v)}%nat)'
 
 
-def _arr(rows, many, dtype):
+def _arr(rows, many, dtype, strided=False):
+    """the array handed to the code; strided = a non-contiguous view with the same contents (every other row / column of a
+    larger array), to exercise reshape / fancy indexing on non-C-contiguous input"""
     a = np.array(rows if many else rows[0], dtype=dtype)
+    if strided:
+        big = np.full(tuple(2 * d for d in a.shape), 0xA5, dtype=dtype)
+        sl = tuple(slice(None, None, 2) for _ in a.shape)
+        big[sl] = a
+        a = big[sl]
     return a
 
 
@@ -195,12 +203,14 @@ class CipherKind(Kind):
             n = rng.choice((1, 2, 3, 5)) if (km or bm) else 1
             r = rng.choice([None] + list(range(nr + 1)))
             s = rng.choice([None, 0, 1, 2, 3])
-            yield self._case(rng, rng.random() < 0.5, klen, r, s, km, bm, n, rng.randrange(4, 10), rng.choice(DTYPES), rng.choice(DTYPES))
+            c = self._case(rng, rng.random() < 0.5, klen, r, s, km, bm, n, rng.randrange(4, 10), rng.choice(MORE_DTYPES), rng.choice(MORE_DTYPES))
+            c['strided'] = rng.random() < 0.4
+            yield c
 
     def run(self, case):
         import scared
-        key = _arr(case['keys'], case['key_many'], case['dtype_key'])
-        blk = _arr(case['blks'], case['blk_many'], case['dtype_blk'])
+        key = _arr(case['keys'], case['key_many'], case['dtype_key'], case.get('strided', False))
+        blk = _arr(case['blks'], case['blk_many'], case['dtype_blk'], case.get('strided', False))
         key0, blk0 = key.copy(), blk.copy()
         kw = {}
         if case['round'] is not None:
@@ -239,7 +249,7 @@ class CipherKind(Kind):
         return {'mode': 'dec' if case['dec'] else 'enc', 'klen': len(case['keys'][0]),
                 'shape': ('K' if case['key_many'] else 'k') + ('B' if case['blk_many'] else 'b'),
                 'n': max(len(case['keys']), len(case['blks'])), 'round': case['round'], 'step': case['step'],
-                'dtype': case['dtype_key'] + '/' + case['dtype_blk']}
+                'dtype': case['dtype_key'] + '/' + case['dtype_blk'], 'strided': bool(case.get('strided', False))}
 
     def tags(self, case, obs):
         return ['cipher', 'decrypt' if case['dec'] else 'encrypt']
@@ -270,6 +280,8 @@ class CipherKind(Kind):
                     yield dict(case, blks=[case['blks'][i]])
         if case['dtype_key'] != 'uint8' or case['dtype_blk'] != 'uint8':
             yield dict(case, dtype_key='uint8', dtype_blk='uint8')
+        if case.get('strided'):
+            yield dict(case, strided=False)
 
 
 PRIMS = [('sub_bytes', 'PSubBytes', 16), ('shift_rows', 'PShiftRows', 16), ('mix_columns', 'PMixColumns', 16),
@@ -308,11 +320,17 @@ class PrimKind(Kind):
             for j in range(n):
                 shape = [[w], [1, w], [3, w], [2, 3, w], [1, 1, w], [2, 1, 2, w]][j % 6]
                 nrows = int(np.prod(shape[:-1])) if len(shape) > 1 else 1
-                yield {'op': fn, 'shape': shape, 'rows': [_rand_row(rng, w) for _ in range(nrows)], 'dtype': rng.choice(DTYPES)}
+                yield {'op': fn, 'shape': shape, 'rows': [_rand_row(rng, w) for _ in range(nrows)], 'dtype': rng.choice(MORE_DTYPES),
+                       'strided': j % 2 == 1}
 
     def run(self, case):
         import scared
         a = np.array(case['rows'], dtype=case['dtype']).reshape(case['shape'])
+        if case.get('strided'):
+            big = np.full(tuple(2 * d for d in a.shape), 0xA5, dtype=case['dtype'])
+            sl = tuple(slice(None, None, 2) for _ in a.shape)
+            big[sl] = a
+            a = big[sl]
         a0 = a.copy()
         out = getattr(scared.aes, case['op'])(a)
         return {'shape': list(out.shape), 'values': _flat(out), 'input_unchanged': bool((a == a0).all())}
@@ -443,7 +461,7 @@ class KeyScheduleKind(Kind):
             n = 10 if tier == 'quick' else 200
             for _ in range(n):
                 many = rng.random() < 0.5
-                yield {'many': many, 'keys': [_rand_row(rng, klen) for _ in range(rng.choice((1, 2, 3)) if many else 1)], 'dtype': rng.choice(DTYPES)}
+                yield {'many': many, 'keys': [_rand_row(rng, klen) for _ in range(rng.choice((1, 2, 3)) if many else 1)], 'dtype': rng.choice(MORE_DTYPES)}
 
     def run(self, case):
         import scared
